@@ -483,7 +483,18 @@ func ruleRerunFailureFailsDependant(c *Check, rule string) {
 			what = "recursive-load"
 		}
 		key := what + "-error-forwarded/" + fname
+		// a call of a function value (a closure obtained from elsewhere) is an ordinary call: its error
+		// result is what counts; only handing a function to code outside the program takes the error away
+		handOff := false
+		if h := s.Common().StaticCallee(); h != nil && !engine.IsFirstParty(pkgPathOf(h)) {
+			handOff = true
+		}
+		if s.Common().IsInvoke() {
+			handOff = true
+		}
 		switch {
+		case !rec && !isLifted[s] && !handOff && engine.ErrResultIndex(s.Common().Signature()) >= 0 && forwardsError(ldo, s):
+			c.OK(rule, key, "when the call fails the loader returns a non-nil error on every path", c.P.InstrPos(s))
 		case !rec && !isLifted[s] && strings.HasSuffix(engine.CalleeName(s), "errgroup.Group).Go") && returnsGroupWait(ldo, s):
 			c.OK(rule, key, "the re-run runs in an errgroup whose Wait() result is what the loader returns", c.P.InstrPos(s))
 		case !rec && !isLifted[s]:
